@@ -210,6 +210,9 @@ func RunCaseOpts(c *Case, pick func(n int) int, o RunOpts) *Result {
 	for _, f := range c.StoreFaults {
 		w.DB.Arm(f)
 	}
+	if c.FreeSched {
+		w.Sched.SetFree()
+	}
 	if c.GateCommits {
 		w.DB.CommitGate = func(int) { _ = w.Sched.Gate(context.Background(), "commit") }
 	}
